@@ -514,6 +514,37 @@ func runC12(r *Run) {
 					leaks = append(leaks, e)
 				}
 			}
+			// dual (positive) form, per iteration: from the loop head the application is unreachable without
+			// crossing next ≠ current, and unreachable without crossing next = "" or "next not yet consumed"
+			if head := loopHead(f); head != nil {
+				bound := core.Bind{"op": b["op"]}
+				crosses := func(pats ...string) func(a, bb *ssa.BasicBlock) bool {
+					return func(a, bb *ssa.BasicBlock) bool {
+						for _, ef := range ff.EdgeFacts(a, bb) {
+							set := core.FactSet{ef.Key(): ef}
+							for _, pat := range pats {
+								if _, m := core.MatchAll(set, []string{pat}, bound); m {
+									return true
+								}
+							}
+							if ef.Kind == "false" && (strings.Contains(ef.Key(), "$processedCommitments[") || strings.Contains(ef.Key(), "$4[")) {
+								for _, pat := range pats {
+									if strings.HasPrefix(pat, "miss(") {
+										return true
+									}
+								}
+							}
+						}
+						return false
+					}
+				}
+				selfOK := !reachesAvoiding(ff, head.Instrs[0], c, crosses("cmp($3 != "+next+")"))
+				r.R.Check(selfOK, P+".skip.selfloop", "E8 never-before (per iteration): a candidate is applied only after next commitment ≠ current commitment", core.FuncName(f), r.P.Pos(c.Pos()),
+					"an operation that re-commits to the commitment it consumes is applied (once per resolution) and its commitment never advances", "guarded on every path of the iteration", "the application is reachable within an iteration without the test next ≠ current")
+				consOK := !reachesAvoiding(ff, head.Instrs[0], c, crosses("miss($4, "+next+")", "cmp("+next+` == "")`))
+				r.R.Check(consOK, P+".skip.consumed", "E8 never-before (per iteration): a candidate is applied only after its next commitment was found absent from the consumed set (or is empty)", core.FuncName(f), r.P.Pos(c.Pos()),
+					"an operation that commits to an already consumed commitment closes a cycle in the commitment chain", "guarded on every path of the iteration", "the application is reachable within an iteration without the consumed-set test")
+			}
 			r.R.Check(nSkipEdges >= 2 && len(leaks) == 0, P+".skip", "E8: the edges 'next = current' and 'next already consumed' never reach the application of that candidate within the same iteration",
 				core.FuncName(f), r.P.Pos(c.Pos()),
 				"if either skip is missing, a self-loop or a longer commitment cycle is applied and the chain revisits a commitment",
